@@ -303,6 +303,11 @@ func (w *world) makeCmds() {
 		w.cmds = append(w.cmds, c)
 		w.byUID[c.uid] = c
 	}
+}
+
+// preset stores the values the cacheable commands read (all but the nil class).
+func (w *world) preset() {
+	sc := w.sc
 	if sc.cacheAPI() && sc.errCls != "nil" {
 		for _, c := range w.cmds {
 			n := w.srv.Node(aP1)
@@ -446,6 +451,7 @@ func (w *world) body() {
 			w.panicked = p
 		}
 	}()
+	w.makeCmds() // before the server exists: its event hook reads the uid table
 	if err := w.setup(); err != nil {
 		w.run.Inconclusive("client construction failed: " + err.Error())
 		if w.srv != nil {
@@ -459,7 +465,7 @@ func (w *world) body() {
 		w.srv.Close()
 		time.Sleep(time.Minute)
 	}()
-	w.makeCmds()
+	w.preset()
 	w.plan()
 	w.started = time.Now()
 	if w.sc.deadline > 0 {
@@ -840,7 +846,7 @@ func TestC28(t *testing.T) {
 	rueidis.VerifSetQueueType("flowbuffer")
 	defer rueidis.VerifSetQueueType("")
 	cbs := combos()
-	reps := run.N(5, 120)
+	reps := run.N(5, 60)
 	base := run.Rand("cases").Int63()
 	id := 0
 	for rep := 0; rep < reps; rep++ {
